@@ -114,7 +114,7 @@ class BundleContainer(object):
         blk_num = self._fix_blk_num(blk)
         pyld_cls = type(blk.payload)
         if blk_num in self._block_num:
-            raise KeyError('add_block() given duplicate block number {}'.foramt(blk_num))
+            raise KeyError('add_block() given duplicate block number {}'.format(blk_num))
 
         blk.ensure_block_type_specific_data()
 
